@@ -291,6 +291,29 @@ bigd_run(int a, size_t n, size_t seed)
 	HC_END();
 }
 
+/*
+ * Message bytes at an address 0..3 past a 16-byte boundary (chosen by the length): callers hash from the middle of their
+ * own buffers, and no path may assume word alignment of its input.
+ */
+static uint8_t *
+unhex_mis(const char * tok, size_t * len)
+{
+	uint8_t * b = hc_unhex(tok, len);
+	uint8_t * base = malloc(*len + 20);
+
+	if (*len > 0)
+		memcpy(base + 16 + (*len & 3), b, *len);
+	free(b);
+	return (base + 16 + (*len & 3));
+}
+
+static void
+free_mis(uint8_t * p, size_t len)
+{
+
+	free(p - 16 - (len & 3));
+}
+
 int
 main(void)
 {
@@ -321,13 +344,13 @@ main(void)
 			HC_END();
 		} else if (hc_is("upd", 2) && (a = alg_of(hc_tok[1])) != A_NONE) {
 			if (!live[a]) { skip(); continue; }
-			in = hc_unhex(hc_tok[2], &len);
+			in = unhex_mis(hc_tok[2], &len);
 			switch (a) {
 			case A_SHA256: SHA256_Update(&c256, in, len); break;
 			case A_SHA1: SHA1_Update(&c1, in, len); break;
 			default: MD5_Update(&c5, in, len); break;
 			}
-			free(in);
+			free_mis(in, len);
 			printf("ok | ");
 			put_ctx(a);
 			HC_END();
@@ -370,24 +393,24 @@ main(void)
 			} else
 				put_digest(dig, dlen[a]);
 		} else if (hc_is("buf", 2) && (a = alg_of(hc_tok[1])) != A_NONE) {
-			in = hc_unhex(hc_tok[2], &len);
+			in = unhex_mis(hc_tok[2], &len);
 			switch (a) {
 			case A_SHA256: SHA256_Buf(in, len, dig); break;
 			case A_SHA1: SHA1_Buf(in, len, dig); break;
 			default: MD5_Buf(in, len, dig); break;
 			}
-			free(in);
+			free_mis(in, len);
 			put_digest(dig, dlen[a]);
 		} else if (hc_is("hmac", 3) && (a = alg_of(hc_tok[1])) != A_NONE) {
 			key = hc_unhex(hc_tok[2], &klen);
-			in = hc_unhex(hc_tok[3], &len);
+			in = unhex_mis(hc_tok[3], &len);
 			switch (a) {
 			case A_SHA256: HMAC_SHA256_Buf(key, klen, in, len, dig); break;
 			case A_SHA1: HMAC_SHA1_Buf(key, klen, in, len, dig); break;
 			default: HMAC_MD5_Buf(key, klen, in, len, dig); break;
 			}
 			free(key);
-			free(in);
+			free_mis(in, len);
 			put_digest(dig, dlen[a]);
 		} else if (hc_is("hmacip", 3) && (a = alg_of(hc_tok[1])) != A_NONE) {
 			/*
@@ -425,13 +448,13 @@ main(void)
 			HC_END();
 		} else if (hc_is("hmacupd", 2) && (a = alg_of(hc_tok[1])) != A_NONE) {
 			if (!hlive[a]) { skip(); continue; }
-			in = hc_unhex(hc_tok[2], &len);
+			in = unhex_mis(hc_tok[2], &len);
 			switch (a) {
 			case A_SHA256: HMAC_SHA256_Update(&h256, in, len); break;
 			case A_SHA1: HMAC_SHA1_Update(&h1, in, len); break;
 			default: HMAC_MD5_Update(&h5, in, len); break;
 			}
-			free(in);
+			free_mis(in, len);
 			printf("ok | ");
 			put_hctx(a);
 			HC_END();
